@@ -9,6 +9,7 @@ import (
 	"bufio"
 	"encoding/json"
 	"fmt"
+	"go/types"
 	"os"
 	"sort"
 
@@ -75,7 +76,7 @@ func main() {
 		}()
 		var src *packages.Package
 		if c.SrcPath != "" {
-			src = &packages.Package{PkgPath: c.SrcPath, Name: c.SrcName}
+			src = &packages.Package{PkgPath: c.SrcPath, Name: c.SrcName, Types: types.NewPackage(c.SrcPath, c.SrcName)}
 		}
 		reg, err := template.NewRegistry(src, c.Dst, c.InPkg)
 		if err != nil {
